@@ -207,9 +207,10 @@ Lemma mods_two (p : dpath pyval) m1 m2 dt mt :
 Proof.
   intros H1 H2 Hd Hm. cbv zeta. cbn [apply_mods].
   rewrite (apply_mod_dt p m1 dt H1 Hd), (apply_mod_mt p m2 mt H2 Hm). cbn [bind].
-  rewrite (apply_mod_mt _ m2 mt H2 Hm). cbn [p_concrete p_parts p_dt p_mt p_src]. rewrite Hd.
+  rewrite (apply_mod_mt (Build_dpath (p_parts p) (p_concrete p) dt (p_mt p) (p_src p)) m2 mt H2 Hm).
+  cbn [p_concrete p_parts p_dt p_mt p_src]. rewrite Hd.
   destruct (p_concrete p); cbn [bind]; repeat split; try (eexists; reflexivity).
-  rewrite (apply_mod_dt _ m1 dt H1 eq_refl). reflexivity.
+  rewrite (apply_mod_dt (Build_dpath (p_parts p) false DtNone mt (p_src p)) m1 dt H1 eq_refl). reflexivity.
 Qed.
 
 Lemma suffix_dt_mt k v a b dt mt : key_clean k = true -> lower_tokens k = ["path"; a; b] ->
@@ -227,7 +228,7 @@ Proof.
   destruct (mods_two p _ _ dt mt Ha Hb Hdt Hmt) as [R1 [_ [[p1 R3] _]]]. rewrite R3, R1. cbn [bind].
   assert (Hset : mt_set mt = true) by (destruct mt; [destruct (mt_name_cases _ _ Hb) as [H|[H|[H|[H|H]]]]; rewrite H in Hb; discriminate Hb|..]; reflexivity).
   rewrite Hset. cbn [andb].
-  destruct (p_concrete p) eqn:Ec; cbn [bind]; [reflexivity|]. rewrite Hms, R1, Ec, Hsrc, Hs. reflexivity.
+  destruct (p_concrete p) eqn:Ec; cbn [bind]; [reflexivity|]. rewrite Hms, R1. cbn [bind]. rewrite Hsrc. reflexivity.
 Qed.
 
 Lemma suffix_mt_dt k v a b dt mt : key_clean k = true -> lower_tokens k = ["path"; b; a] ->
@@ -245,7 +246,7 @@ Proof.
   destruct (mods_two p _ _ dt mt Ha Hb Hdt Hmt) as [_ [R2 [_ R4]]]. rewrite R4, R2.
   assert (Hset : mt_set mt = true) by (destruct mt; [destruct (mt_name_cases _ _ Hb) as [H|[H|[H|[H|H]]]]; rewrite H in Hb; discriminate Hb|..]; reflexivity).
   rewrite Hset. cbn [andb].
-  destruct (p_concrete p) eqn:Ec; cbn [bind]; [reflexivity|]. rewrite Hms, R2, Ec, Hsrc, Hs. reflexivity.
+  destruct (p_concrete p) eqn:Ec; cbn [bind]; [reflexivity|]. rewrite Hms, R2. cbn [bind]. rewrite Hsrc. reflexivity.
 Qed.
 
 (* C10 (4): "path.<dtype>.<multi>" and "path.<multi>.<dtype>" -- every datum-type and multiplicity name
@@ -301,3 +302,820 @@ Example suffix_twice :
   path_from_spec T X (VDict [(VStr "path.len.type", VList [VDict []])]) = Err ValueError /\
   path_from_spec T X (VDict [(VStr "path.first.last", VList [VDict []])]) = Err ValueError.
 Proof. vm_compute. split; reflexivity. Qed.
+
+(* ================================================================== *)
+(* 2. the dotted shorthands of part specs                               *)
+
+Lemma py_eq_str a b : py_eq (VStr a) (VStr b) = String.eqb a b.
+Proof. reflexivity. Qed.
+
+Definition key_is (k : string) (kv : pyval * pyval) : bool := py_eq (VStr k) (fst kv).
+Definition no_key (k : string) (d : list (pyval * pyval)) : bool := forallb (fun kv => negb (key_is k kv)) d.
+
+Lemma dict_pop_none k d : no_key k d = true -> dict_pop k d = (None, d).
+Proof.
+  induction d as [|[k2 v] r IH]; cbn [no_key forallb dict_pop key_is fst]; [reflexivity|].
+  intros H. apply andb_true_iff in H as [H1 H2]. apply negb_true_iff in H1. unfold key_is in H1. cbn [fst] in H1.
+  rewrite H1. fold (no_key k r) in H2. rewrite (IH H2). reflexivity.
+Qed.
+Lemma dict_pop_hit k v r : dict_pop k ((VStr k, v) :: r) = (Some v, r).
+Proof. cbn [dict_pop]. rewrite py_eq_str, String.eqb_refl. reflexivity. Qed.
+
+(* a shorthand entry: a str key starting with `value.` / `key.` / `index.` *)
+Definition is_short (pre : string) (kv : pyval * pyval) : bool :=
+  match fst kv with VStr s => String.prefix pre s | _ => false end.
+Definition not_short (pre : string) (kv : pyval * pyval) : bool := negb (is_short pre kv).
+
+Lemma split_short_eq pre d : split_short pre d = Ok (filter (is_short pre) d, filter (not_short pre) d).
+Proof.
+  induction d as [|[k v] r IH]; cbn [split_short filter]; [reflexivity|].
+  unfold not_short. destruct k; cbn [is_short fst negb]; rewrite IH; cbn [bind]; try reflexivity.
+  destruct (String.prefix pre s); reflexivity.
+Qed.
+
+Definition lab_of (o : option pyval) : list (pyval * pyval) :=
+  match o with Some l => [(VStr "label", l)] | None => [] end.
+
+Definition short_prefixes : list string := ["value."; "key."; "index."].
+Definition reserved_keys : list string :=
+  ["type"; "condition"; "list_condition"; "map_condition"; "value"; "key"; "index"; "label"].
+
+(* every entry is a shorthand of one of the given prefixes *)
+Definition shorts_of (pres : list string) (d : list (pyval * pyval)) : bool :=
+  forallb (fun kv => existsb (fun pre => is_short pre kv) pres) d.
+
+Lemma prefix_eq_false pre k s : String.prefix pre s = true -> String.prefix pre k = false -> String.eqb k s = false.
+Proof. intros H1 H2. destruct (String.eqb_spec k s) as [->|]; [congruence|reflexivity]. Qed.
+
+Lemma short_no_key pres k d :
+  shorts_of pres d = true -> forallb (fun pre => negb (String.prefix pre k)) pres = true -> no_key k d = true.
+Proof.
+  intros Hd Hk. unfold shorts_of in Hd. unfold no_key. rewrite forallb_forall in *. intros [k2 v] Hin.
+  specialize (Hd _ Hin). apply existsb_exists in Hd as [pre [Hpre Hs]]. specialize (Hk _ Hpre).
+  apply negb_true_iff in Hk. unfold is_short in Hs. cbn [fst] in Hs. unfold key_is. cbn [fst].
+  destruct k2; try discriminate Hs. rewrite py_eq_str, (prefix_eq_false pre k s Hs Hk). reflexivity.
+Qed.
+
+Lemma no_key_app k a b : no_key k (a ++ b) = no_key k a && no_key k b.
+Proof. unfold no_key. apply forallb_app. Qed.
+
+Lemma shorts_of_sub pres d : shorts_of pres d = true ->
+  forallb (fun p => existsb (String.eqb p) short_prefixes) pres = true -> shorts_of short_prefixes d = true.
+Proof.
+  unfold shorts_of. intros Hd Hp. rewrite forallb_forall in *. intros kv Hin. specialize (Hd kv Hin).
+  apply existsb_exists in Hd as [pre [Hpre Hs]]. specialize (Hp pre Hpre).
+  apply existsb_exists in Hp as [q [Hq E]]. apply String.eqb_eq in E. subst q.
+  apply existsb_exists. exists pre. split; assumption.
+Qed.
+
+(* none of the reserved keys is among shorthand entries (followed by a label entry, for all keys but `label`) *)
+Lemma reserved_absent k d o :
+  shorts_of short_prefixes d = true -> In k reserved_keys -> k <> "label" -> no_key k (d ++ lab_of o) = true.
+Proof.
+  intros Hd Hin Hk. rewrite no_key_app. apply andb_true_iff. split.
+  - apply (short_no_key short_prefixes k d Hd).
+    cbn [In reserved_keys] in Hin. repeat (destruct Hin as [<-|Hin]; [reflexivity|]). contradiction.
+  - destruct o as [l|]; [|reflexivity]. unfold no_key, key_is. cbn [lab_of forallb fst]. rewrite py_eq_str.
+    cbn [In reserved_keys] in Hin. repeat (destruct Hin as [<-|Hin]; [try reflexivity; try congruence|]). contradiction.
+Qed.
+
+Lemma label_absent d : shorts_of short_prefixes d = true -> no_key "label" d = true.
+Proof. intros Hd. apply (short_no_key short_prefixes "label" d Hd). reflexivity. Qed.
+
+Lemma filter_lab pre d o : In pre short_prefixes ->
+  filter (is_short pre) (d ++ lab_of o) = filter (is_short pre) d /\
+  filter (not_short pre) (d ++ lab_of o) = filter (not_short pre) d ++ lab_of o.
+Proof.
+  intros Hin. rewrite !filter_app.
+  assert (H : filter (is_short pre) (lab_of o) = [] /\ filter (not_short pre) (lab_of o) = lab_of o).
+  { cbn [In short_prefixes] in Hin. destruct o as [l|]; [|split; reflexivity].
+    repeat (destruct Hin as [<-|Hin]; [split; reflexivity|]). contradiction. }
+  destruct H as [H1 H2]. rewrite H1, H2, app_nil_r. split; reflexivity.
+Qed.
+
+Lemma filter_absorb {Y} (P Q : Y -> bool) d : (forall x, P x = true -> Q x = true) ->
+  filter P (filter Q d) = filter P d.
+Proof.
+  intros H. induction d as [|x r IH]; cbn [filter]; [reflexivity|].
+  destruct (Q x) eqn:Eq; cbn [filter]; [rewrite IH; reflexivity|].
+  destruct (P x) eqn:Ep; [rewrite (H x Ep) in Eq; discriminate|exact IH].
+Qed.
+
+Lemma prefix_first a p s : String.prefix (String a p) s = true -> exists r, s = String a r.
+Proof. destruct s as [|b r]; cbn [String.prefix]; [discriminate|]. destruct (ascii_dec a b) as [<-|]; [eexists; reflexivity|discriminate]. Qed.
+
+(* the three prefixes are pairwise disjoint *)
+Lemma short_disjoint p q kv : In p short_prefixes -> In q short_prefixes -> p <> q ->
+  is_short p kv = true -> not_short q kv = true.
+Proof.
+  intros Hp Hq Hne H. unfold not_short, is_short in *. destruct (fst kv) as [| | | |s| | | | |]; try discriminate H.
+  cbn [In short_prefixes] in Hp, Hq.
+  repeat (destruct Hp as [<-|Hp]); try contradiction;
+    repeat (destruct Hq as [<-|Hq]); try contradiction; try congruence;
+    apply prefix_first in H as [r ->]; reflexivity.
+Qed.
+
+Lemma leftover_nil pres d : shorts_of pres d = true ->
+  fold_right (fun pre acc => filter (not_short pre) acc) d pres = [].
+Proof.
+  revert d. induction pres as [|pre pres IH]; intros d H; cbn [fold_right].
+  - destruct d as [|kv r]; [reflexivity|]. cbn [shorts_of forallb existsb andb] in H. discriminate H.
+  - assert (Hgen : forall l, shorts_of (pre :: pres) l = true -> shorts_of pres (filter (not_short pre) l) = true).
+    { induction l as [|kv r IHr]; cbn [shorts_of forallb filter]; [reflexivity|].
+      intros Hl. apply andb_true_iff in Hl as [H1 H2]. unfold not_short at 1.
+      destruct (is_short pre kv) eqn:E; cbn [negb].
+      - apply IHr. exact H2.
+      - cbn [existsb] in H1. rewrite E in H1. cbn [orb] in H1. cbn [forallb]. fold (shorts_of pres (filter (not_short pre) r)).
+        rewrite H1. cbn [andb]. apply IHr. exact H2. }
+    (* filters commute *)
+    assert (Hc : forall l, fold_right (fun pre acc => filter (not_short pre) acc) (filter (not_short pre) l) pres
+                           = filter (not_short pre) (fold_right (fun pre acc => filter (not_short pre) acc) l pres)).
+    { clear. induction pres as [|q pres IHp]; intros l; cbn [fold_right]; [reflexivity|].
+      rewrite IHp. induction (fold_right (fun pre0 acc => filter (not_short pre0) acc) l pres) as [|x r IHr]; cbn [filter]; [reflexivity|].
+      destruct (not_short pre x) eqn:E1; destruct (not_short q x) eqn:E2; cbn [filter]; rewrite ?E1, ?E2, IHr; reflexivity. }
+    rewrite <- Hc. apply IH. apply Hgen. exact H.
+Qed.
+
+Definition finish (t : pterm pyval) : res (pterm pyval) := let* _ := mk_part T Spec.id0 t in Ok t.
+Definition dn : dslc pyval * cond pyval := (DNull, CNull).
+
+Lemma part_class_map : assoc_str "map_value" (sx_part_classes X) = Some "MapValue". Proof. reflexivity. Qed.
+Lemma part_class_list : assoc_str "list_value" (sx_part_classes X) = Some "ListValue". Proof. reflexivity. Qed.
+Lemma part_class_mol : assoc_str "map_or_list_value" (sx_part_classes X) = Some "MapOrListValue". Proof. reflexivity. Qed.
+Lemma part_class_default : assoc_str (sx_part_default X) (sx_part_classes X) = Some "MapOrListValue". Proof. reflexivity. Qed.
+
+Section Short.
+  Variable c0 : pyval -> res (dslc pyval * cond pyval).
+
+  Lemma pop_cond_none k d : no_key k d = true -> pop_cond c0 k d = Ok (dn, d).
+  Proof. intros H. unfold pop_cond. rewrite (dict_pop_none k d H). reflexivity. Qed.
+  Lemma pop_kind_none k kind acc d : no_key k d = true -> pop_kind c0 k kind acc d = Ok (acc, d).
+  Proof. intros H. unfold pop_kind. rewrite (dict_pop_none k d H). reflexivity. Qed.
+
+  Lemma shorthands_eq pre acc d :
+    shorthands c0 pre acc d = let* acc' := fold_short c0 (filter (is_short pre) d) acc in Ok (acc', filter (not_short pre) d).
+  Proof. unfold shorthands. rewrite split_short_eq. reflexivity. Qed.
+
+  Lemma fold_short_app a b acc :
+    fold_short c0 (a ++ b) acc = let* x := fold_short c0 a acc in fold_short c0 b x.
+  Proof.
+    revert acc. induction a as [|[k v] r IH]; intros acc; cbn [app fold_short bind]; [reflexivity|].
+    destruct (c0 (VDict [(k, v)])) as [c|e]; cbn [bind]; [|reflexivity].
+    destruct (and_on acc c) as [acc'|e]; cbn [bind]; [apply IH|reflexivity].
+  Qed.
+
+  (* the part of the parser common to the three classes, on a spec without long-form entries *)
+  Ltac pops Hd o :=
+    repeat match goal with
+    | |- context [pop_cond c0 ?k (?d ++ lab_of o)] =>
+        rewrite (pop_cond_none k (d ++ lab_of o) (reserved_absent k d o Hd ltac:(cbn; tauto) ltac:(discriminate))); cbn [bind]; cbv beta iota
+    end.
+
+  (* map_value: `value.` shorthands in their order, then `key.` shorthands in their order *)
+  Theorem short_map d o : shorts_of ["value."; "key."] d = true ->
+    part_from_spec T X c0 ((VStr "type", VStr "map_value") :: d ++ lab_of o) =
+    let* a1 := fold_short c0 (filter (is_short "value.") d) dn in
+    let* a2 := fold_short c0 (filter (is_short "key.") d) a1 in
+    finish (PtMap None None (Some (KCond (fst a2))) o).
+  Proof.
+    intros Hd0. pose proof (shorts_of_sub _ d Hd0 eq_refl) as Hd.
+    unfold part_from_spec. rewrite dict_pop_hit. cbv beta iota. rewrite part_class_map. cbn [bind].
+    pops Hd o.
+    rewrite (pop_kind_none "value" DValue _ _ (reserved_absent "value" d o Hd ltac:(cbn; tauto) ltac:(discriminate))).
+    cbn [bind]; cbv beta iota.
+    rewrite shorthands_eq. destruct (filter_lab "value." d o ltac:(cbn; tauto)) as [F1 F2]. rewrite F1, F2. fold dn.
+    destruct (fold_short c0 (filter (is_short "value.") d) dn) as [a1|e]; cbn [bind]; [|reflexivity]. cbv beta iota.
+    change (String.eqb "MapValue" "MapValue") with true. cbv beta iota.
+    rewrite shorthands_eq. destruct (filter_lab "key." (filter (not_short "value.") d) o ltac:(cbn; tauto)) as [G1 G2].
+    rewrite G1, G2.
+    rewrite (filter_absorb (is_short "key.") (not_short "value.") d
+               (fun kv => short_disjoint "key." "value." kv ltac:(cbn; tauto) ltac:(cbn; tauto) ltac:(discriminate))).
+    destruct (fold_short c0 (filter (is_short "key.") d) a1) as [a2|e]; cbn [bind]; [|reflexivity]. cbv beta iota.
+    pose proof (leftover_nil ["key."; "value."] d) as L. cbn [fold_right] in L. rewrite L.
+    2:{ unfold shorts_of in *. rewrite forallb_forall in *. intros kv Hin. specialize (Hd0 kv Hin).
+        cbn [existsb] in *. rewrite orb_false_r in *. rewrite orb_comm. exact Hd0. }
+    cbn [app]. rewrite (pop_kind_none "key" DKey a2 (lab_of o)) by (destruct o; reflexivity).
+    cbn [bind]; cbv beta iota.
+    destruct o as [l|]; cbn [lab_of]; [rewrite dict_pop_hit|cbn [dict_pop]]; reflexivity.
+  Qed.
+
+  (* list_value: `value.` shorthands, then `index.` shorthands *)
+  Theorem short_list d o : shorts_of ["value."; "index."] d = true ->
+    part_from_spec T X c0 ((VStr "type", VStr "list_value") :: d ++ lab_of o) =
+    let* a1 := fold_short c0 (filter (is_short "value.") d) dn in
+    let* a2 := fold_short c0 (filter (is_short "index.") d) a1 in
+    finish (PtList None None (Some (KCond (fst a2))) o).
+  Proof.
+    intros Hd0. pose proof (shorts_of_sub _ d Hd0 eq_refl) as Hd.
+    unfold part_from_spec. rewrite dict_pop_hit. cbv beta iota. rewrite part_class_list. cbn [bind].
+    pops Hd o.
+    rewrite (pop_kind_none "value" DValue _ _ (reserved_absent "value" d o Hd ltac:(cbn; tauto) ltac:(discriminate))).
+    cbn [bind]; cbv beta iota.
+    rewrite shorthands_eq. destruct (filter_lab "value." d o ltac:(cbn; tauto)) as [F1 F2]. rewrite F1, F2. fold dn.
+    destruct (fold_short c0 (filter (is_short "value.") d) dn) as [a1|e]; cbn [bind]; [|reflexivity]. cbv beta iota.
+    change (String.eqb "ListValue" "MapValue") with false. change (String.eqb "ListValue" "ListValue") with true. cbv beta iota.
+    rewrite shorthands_eq. destruct (filter_lab "index." (filter (not_short "value.") d) o ltac:(cbn; tauto)) as [G1 G2].
+    rewrite G1, G2.
+    rewrite (filter_absorb (is_short "index.") (not_short "value.") d
+               (fun kv => short_disjoint "index." "value." kv ltac:(cbn; tauto) ltac:(cbn; tauto) ltac:(discriminate))).
+    destruct (fold_short c0 (filter (is_short "index.") d) a1) as [a2|e]; cbn [bind]; [|reflexivity]. cbv beta iota.
+    pose proof (leftover_nil ["index."; "value."] d) as L. cbn [fold_right] in L. rewrite L.
+    2:{ unfold shorts_of in *. rewrite forallb_forall in *. intros kv Hin. specialize (Hd0 kv Hin).
+        cbn [existsb] in *. rewrite orb_false_r in *. rewrite orb_comm. exact Hd0. }
+    cbn [app]. rewrite (pop_kind_none "index" DIndex a2 (lab_of o)) by (destruct o; reflexivity).
+    cbn [bind]; cbv beta iota.
+    destruct o as [l|]; cbn [lab_of]; [rewrite dict_pop_hit|cbn [dict_pop]]; reflexivity.
+  Qed.
+
+  (* map_or_list_value (named, or by default): the three families feed three separate conditions *)
+  Definition mol_result d o : res (pterm pyval) :=
+    let* c := fold_short c0 (filter (is_short "value.") d) dn in
+    let* l := fold_short c0 (filter (is_short "index.") d) dn in
+    let* m := fold_short c0 (filter (is_short "key.") d) dn in
+    finish (PtMol None None None (Some (KCond (fst l))) (Some (KCond (fst m))) (Some (KCond (fst c))) o).
+
+  Lemma short_mol_body d o : shorts_of short_prefixes d = true ->
+    (let* (cnd, d2) := pop_cond c0 "condition" (d ++ lab_of o) in
+      let* (lcnd, d3) := pop_cond c0 "list_condition" d2 in
+      let* (mcnd, d4) := pop_cond c0 "map_condition" d3 in
+      let* (cnd1, d5) := pop_kind c0 "value" DValue cnd d4 in
+      let* (cnd2, d6) := shorthands c0 "value." cnd1 d5 in
+        let* (l1, d7) := shorthands c0 "index." lcnd d6 in
+        let* (m1, d8) := shorthands c0 "key." mcnd d7 in
+        let* (l2, d9) := pop_kind c0 "index" DIndex l1 d8 in
+        let* (m2, d10) := pop_kind c0 "key" DKey m1 d9 in
+        let '(label, d11) := dict_pop "label" d10 in
+        match d11 with
+        | [] =>
+            let t := PtMol None None None (to_carg l2) (to_carg m2) (to_carg cnd2) label in
+            let* _ := mk_part T Spec.id0 t in Ok t
+        | _ => Err ValueError
+        end) = mol_result d o.
+  Proof.
+    intros Hd. unfold mol_result.
+    pops Hd o.
+    rewrite (pop_kind_none "value" DValue _ _ (reserved_absent "value" d o Hd ltac:(cbn; tauto) ltac:(discriminate))).
+    cbn [bind]; cbv beta iota.
+    rewrite shorthands_eq. destruct (filter_lab "value." d o ltac:(cbn; tauto)) as [F1 F2]. rewrite F1, F2. fold dn.
+    destruct (fold_short c0 (filter (is_short "value.") d) dn) as [a1|e]; cbn [bind]; [|reflexivity]. cbv beta iota.
+    rewrite shorthands_eq. destruct (filter_lab "index." (filter (not_short "value.") d) o ltac:(cbn; tauto)) as [G1 G2].
+    rewrite G1, G2.
+    rewrite (filter_absorb (is_short "index.") (not_short "value.") d
+               (fun kv => short_disjoint "index." "value." kv ltac:(cbn; tauto) ltac:(cbn; tauto) ltac:(discriminate))).
+    destruct (fold_short c0 (filter (is_short "index.") d) dn) as [a2|e]; cbn [bind]; [|reflexivity]. cbv beta iota.
+    rewrite shorthands_eq.
+    destruct (filter_lab "key." (filter (not_short "index.") (filter (not_short "value.") d)) o ltac:(cbn; tauto)) as [K1 K2].
+    rewrite K1, K2.
+    rewrite (filter_absorb (is_short "key.") (not_short "index.") _
+               (fun kv => short_disjoint "key." "index." kv ltac:(cbn; tauto) ltac:(cbn; tauto) ltac:(discriminate))).
+    rewrite (filter_absorb (is_short "key.") (not_short "value.") d
+               (fun kv => short_disjoint "key." "value." kv ltac:(cbn; tauto) ltac:(cbn; tauto) ltac:(discriminate))).
+    destruct (fold_short c0 (filter (is_short "key.") d) dn) as [a3|e]; cbn [bind]; [|reflexivity]. cbv beta iota.
+    pose proof (leftover_nil ["key."; "index."; "value."] d) as L. cbn [fold_right] in L. rewrite L.
+    2:{ unfold shorts_of in *. rewrite forallb_forall in *. intros kv Hin. specialize (Hd kv Hin).
+        cbn [existsb short_prefixes] in *. rewrite orb_false_r in *.
+        destruct (is_short "value." kv), (is_short "key." kv), (is_short "index." kv); try reflexivity; discriminate Hd. }
+    cbn [app]. rewrite (pop_kind_none "index" DIndex a2 (lab_of o)) by (destruct o; reflexivity).
+    cbn [bind]; cbv beta iota.
+    rewrite (pop_kind_none "key" DKey a3 (lab_of o)) by (destruct o; reflexivity).
+    cbn [bind]; cbv beta iota.
+    destruct o as [l|]; cbn [lab_of]; [rewrite dict_pop_hit|cbn [dict_pop]]; reflexivity.
+  Qed.
+
+  Theorem short_mol d o : shorts_of short_prefixes d = true ->
+    part_from_spec T X c0 ((VStr "type", VStr "map_or_list_value") :: d ++ lab_of o) = mol_result d o /\
+    part_from_spec T X c0 (d ++ lab_of o) = mol_result d o.
+  Proof.
+    intros Hd. split.
+    - unfold part_from_spec. rewrite dict_pop_hit. cbv beta iota. rewrite part_class_mol. cbn [bind].
+      change (String.eqb "MapOrListValue" "MapValue") with false.
+      change (String.eqb "MapOrListValue" "ListValue") with false. cbv beta iota.
+      exact (short_mol_body d o Hd).
+    - unfold part_from_spec.
+      rewrite (dict_pop_none "type" _ (reserved_absent "type" d o Hd ltac:(cbn; tauto) ltac:(discriminate))).
+      cbv beta iota. rewrite part_class_default. cbn [bind].
+      change (String.eqb "MapOrListValue" "MapValue") with false.
+      change (String.eqb "MapOrListValue" "ListValue") with false. cbv beta iota.
+      exact (short_mol_body d o Hd).
+  Qed.
+End Short.
+
+(* ---- a leaf spec whose key starts with `value.` / `key.` / `index.` parses (if at all) to a
+        condition of that kind: the check of the long forms never fires on what a shorthand accepts ---- *)
+
+Definition datum_kinds : list (string * dkind) := [("value", DValue); ("key", DKey); ("index", DIndex)].
+
+Lemma class_kind_fact d kind cls_name k0 k k' :
+  In (d, kind) datum_kinds ->
+  assoc_str d (sx_datum_types X) = Some cls_name -> find_class (t_classes T) cls_name = Some k0 ->
+  (k = k0 \/ exists pre, class_pre T k0 pre = Ok k) -> find_class (t_classes T) (k_name k) = Some k' ->
+  k_kind k' = kind /\ String.eqb (k_name k') "NullCondition" = false.
+Proof.
+  intros Hin Ha Hk0 Hk Hk'. cbn [In datum_kinds] in Hin.
+  destruct Hin as [E|[E|[E|[]]]]; injection E as E1 E2; subst d kind;
+    vm_compute in Ha; injection Ha as Ha; subst cls_name;
+    vm_compute in Hk0; injection Hk0 as Hk0; subst k0;
+    (destruct Hk as [Hk|[pre Hpre]];
+     [subst k
+     |unfold class_pre in Hpre; destruct (String.eqb pre "length"); [|destruct (String.eqb pre "dtype")];
+      vm_compute in Hpre; try discriminate Hpre; injection Hpre as Hpre; subst k]);
+    vm_compute in Hk'; injection Hk' as Hk'; subst k'; split; reflexivity.
+Qed.
+
+Lemma parse_leaf_kind A lit mk inert pfs key v t c d kind :
+  In (d, kind) datum_kinds -> hd "" (lower_tokens key) = d ->
+  parse_leaf T X A lit mk inert pfs key v = Ok (t, c) -> is_like_strict kind c = true.
+Proof.
+  intros Hin Hhd. unfold parse_leaf. rewrite Hhd.
+  destruct (assoc_str d (sx_datum_types X)) as [cls_name|] eqn:Ea; [|discriminate].
+  match goal with |- (if ?b then _ else _) = _ -> _ => destruct b end; [discriminate|].
+  destruct (find_class (t_classes T) cls_name) as [k0|] eqn:Ek0; [|discriminate].
+  match goal with |- (let* x := ?e in _) = _ -> _ => destruct e as [[k v1]|e1] eqn:Ekv end; cbn [bind]; [|discriminate].
+  assert (Hk : k = k0 \/ exists pre, class_pre T k0 pre = Ok k).
+  { destruct (List.length (lower_tokens key) =? 3)%nat.
+    - match type of Ekv with (let* x := ?e in _) = _ => destruct e as [v'|e1] end; cbn [bind] in Ekv; [|discriminate Ekv].
+      match type of Ekv with (let* x := class_pre T k0 ?p in _) = _ => destruct (class_pre T k0 p) as [k'|e1] eqn:Ep end;
+        cbn [bind] in Ekv; [|discriminate Ekv].
+      injection Ekv as E1 E2. subst k'. right. eexists. exact Ep.
+    - injection Ekv as E1 E2. left. symmetry. exact E1. }
+  match goal with |- (let* x := ?e in _) = _ -> _ => destruct e as [v2|e1] end; cbn [bind]; [|discriminate].
+  match goal with |- match ?e with Some _ => _ | None => _ end = _ -> _ => destruct e as [ct|] end; [|discriminate].
+  match goal with |- (let* x := ?e in _) = _ -> _ => destruct e as [cv|e1] end; cbn [bind]; [|discriminate].
+  match goal with |- (let* x := ?e in _) = _ -> _ => destruct e as [[pos kw]|e1] end; cbn [bind]; [|discriminate].
+  match goal with |- (let* x := ?e in _) = _ -> _ => destruct e as [l|e1] eqn:Eb end; cbn [bind]; [|discriminate].
+  intros E. injection E as _ Ec. subst c.
+  unfold build_leaf in Eb.
+  destruct (find_class (t_classes T) (k_name k)) as [k'|] eqn:Ek'; [|discriminate Eb].
+  destruct (find_ctor T k' _) as [ct'|]; [|discriminate Eb].
+  destruct (apply_ctor lit ct' pos kw) as [[args kws]|e1]; cbn [bind] in Eb; [|discriminate Eb].
+  injection Eb as Eb. subst l.
+  destruct (class_kind_fact d kind cls_name k0 k k' Hin Ea Ek0 Hk Ek') as [H1 H2].
+  unfold is_like_strict. cbn [leaves forallb l_kind]. unfold is_null_leaf. cbn [l_cls]. rewrite H1, H2.
+  destruct kind; reflexivity.
+Qed.
+
+Lemma prefix_split p : forall s, String.prefix p s = true -> exists r, s = (p ++ r)%string.
+Proof.
+  induction p as [|a p IH]; intros s H.
+  - exists s. reflexivity.
+  - destruct s as [|b s]; cbn [String.prefix] in H; [discriminate|].
+    destruct (ascii_dec a b) as [<-|]; [|discriminate]. destruct (IH s H) as [r ->]. exists r. reflexivity.
+Qed.
+
+Definition short_kinds : list (string * (string * dkind)) :=
+  [("value.", ("value", DValue)); ("key.", ("key", DKey)); ("index.", ("index", DIndex))].
+
+Lemma short_hd pre d kind k : In (pre, (d, kind)) short_kinds -> String.prefix pre k = true ->
+  hd "" (lower_tokens k) = d /\ assoc_str k (sx_binops X) = None /\ In (d, kind) datum_kinds.
+Proof.
+  intros Hin Hp. destruct (prefix_split pre k Hp) as [r ->].
+  cbn [In short_kinds] in Hin. destruct Hin as [E|[E|[E|[]]]]; injection E as E1 E2 E3; subst pre d kind.
+  - change ("value." ++ r)%string with ("value" ++ String "."%char r)%string at 1. rewrite lower_tokens_app.
+    repeat split; [cbn; tauto].
+  - change ("key." ++ r)%string with ("key" ++ String "."%char r)%string at 1. rewrite lower_tokens_app.
+    repeat split; [cbn; tauto].
+  - change ("index." ++ r)%string with ("index" ++ String "."%char r)%string at 1. rewrite lower_tokens_app.
+    repeat split; [cbn; tauto].
+Qed.
+
+(* at any positive fuel of the stratum-0 condition parser *)
+Lemma cond0_short_kind f pre d kind k v c : In (pre, (d, kind)) short_kinds -> String.prefix pre k = true ->
+  cond0_from_spec T X (S f) (VDict [(VStr k, v)]) = Ok c -> is_like_strict kind (snd c) = true.
+Proof.
+  intros Hin Hp. destruct (short_hd pre d kind k Hin Hp) as [Hhd [Hb Hdk]].
+  cbn [cond0_from_spec]. unfold cond_from_spec_step. cbn [py_truthy negb]. rewrite Hb.
+  destruct c as [t c]. intros H. cbn [snd]. exact (parse_leaf_kind _ _ _ _ _ k v t c d kind Hdk Hhd H).
+Qed.
+
+(* ================================================================== *)
+(* 1./2. long forms: `condition`, `value`, `key` / `index` given as condition specs *)
+
+Definition opt_entry (k : string) (os : option pyval) : list (pyval * pyval) :=
+  match os with Some s => [(VStr k, s)] | None => [] end.
+(* `key: null` is an absent key *)
+Definition given (os : option pyval) : bool := match os with Some VNone => false | _ => true end.
+
+Section Long.
+  Variable c0 : pyval -> res (dslc pyval * cond pyval).
+
+  Definition long_cond (os : option pyval) : res (dslc pyval * cond pyval) :=
+    match os with Some s => c0 s | None => Ok dn end.
+  Definition long_kind (kind : dkind) (acc : dslc pyval * cond pyval) (os : option pyval) : res (dslc pyval * cond pyval) :=
+    match os with
+    | Some s => let* c := c0 s in if is_like_strict kind (snd c) then and_on acc c else Err ValueError
+    | None => Ok acc
+    end.
+
+  Lemma pop_cond_hit k s r : given (Some s) = true ->
+    pop_cond c0 k ((VStr k, s) :: r) = let* c := c0 s in Ok (c, r).
+  Proof. intros H. unfold pop_cond. rewrite dict_pop_hit. destruct s; try reflexivity. discriminate H. Qed.
+  Lemma pop_kind_hit k kind acc s r : given (Some s) = true ->
+    pop_kind c0 k kind acc ((VStr k, s) :: r) =
+    let* c := c0 s in if is_like_strict kind (snd c) then let* x := and_on acc c in Ok (x, r) else Err ValueError.
+  Proof. intros H. unfold pop_kind. rewrite dict_pop_hit. destruct s; try reflexivity. discriminate H. Qed.
+
+  Ltac eval_filters :=
+    repeat match goal with
+    | |- context [filter ?P ?L] => let r := eval cbv in (filter P L) in change (filter P L) with r
+    end.
+  Ltac red1 := cbn [bind]; cbv beta iota.
+  Ltac step :=
+    first
+    [ rewrite pop_cond_hit by assumption;
+      match goal with |- context [c0 ?s] => destruct (c0 s) as [?c|?e]; red1; [|reflexivity] end
+    | rewrite (pop_cond_none c0) by reflexivity; red1
+    | rewrite pop_kind_hit by assumption;
+      match goal with |- context [c0 ?s] => destruct (c0 s) as [?c|?e]; red1; [|reflexivity] end;
+      match goal with |- context [is_like_strict ?k ?x] => destruct (is_like_strict k x); red1; [|reflexivity] end;
+      match goal with |- context [and_on ?a ?b] => destruct (and_on a b) as [?c|?e]; red1; [|reflexivity] end
+    | rewrite (pop_kind_none c0) by reflexivity; red1
+    | rewrite (shorthands_eq c0); eval_filters; cbn [fold_short]; red1
+    | rewrite dict_pop_hit; red1
+    | rewrite dict_pop_none by reflexivity; red1 ].
+
+  Theorem long_map oc ov ok o : given oc = true -> given ov = true -> given ok = true ->
+    part_from_spec T X c0 ((VStr "type", VStr "map_value")
+       :: opt_entry "condition" oc ++ opt_entry "value" ov ++ opt_entry "key" ok ++ lab_of o) =
+    let* c := long_cond oc in let* c1 := long_kind DValue c ov in let* c2 := long_kind DKey c1 ok in
+    finish (PtMap None None (Some (KCond (fst c2))) o).
+  Proof.
+    intros Hc Hv Hk. unfold part_from_spec. rewrite dict_pop_hit. cbv beta iota. rewrite part_class_map. cbn [bind].
+    change (String.eqb "MapValue" "MapValue") with true.
+    destruct oc as [sc|], ov as [sv|], ok as [sk|], o as [l|];
+      cbn [opt_entry lab_of app long_cond long_kind]; fold dn; repeat step; reflexivity.
+  Qed.
+
+  Theorem long_list oc ov oi o : given oc = true -> given ov = true -> given oi = true ->
+    part_from_spec T X c0 ((VStr "type", VStr "list_value")
+       :: opt_entry "condition" oc ++ opt_entry "value" ov ++ opt_entry "index" oi ++ lab_of o) =
+    let* c := long_cond oc in let* c1 := long_kind DValue c ov in let* c2 := long_kind DIndex c1 oi in
+    finish (PtList None None (Some (KCond (fst c2))) o).
+  Proof.
+    intros Hc Hv Hk. unfold part_from_spec. rewrite dict_pop_hit. cbv beta iota. rewrite part_class_list. cbn [bind].
+    change (String.eqb "ListValue" "MapValue") with false. change (String.eqb "ListValue" "ListValue") with true.
+    destruct oc as [sc|], ov as [sv|], oi as [si|], o as [l|];
+      cbn [opt_entry lab_of app long_cond long_kind]; fold dn; repeat step; reflexivity.
+  Qed.
+
+  Definition mol_long_result oc olc omc ov oi ok o : res (pterm pyval) :=
+    let* c := long_cond oc in let* lc := long_cond olc in let* mc := long_cond omc in
+    let* c1 := long_kind DValue c ov in
+    let* l2 := long_kind DIndex lc oi in let* m2 := long_kind DKey mc ok in
+    finish (PtMol None None None (Some (KCond (fst l2))) (Some (KCond (fst m2))) (Some (KCond (fst c1))) o).
+
+  Definition mol_entries oc olc omc ov oi ok o : list (pyval * pyval) :=
+    opt_entry "condition" oc ++ opt_entry "list_condition" olc ++ opt_entry "map_condition" omc
+    ++ opt_entry "value" ov ++ opt_entry "index" oi ++ opt_entry "key" ok ++ lab_of o.
+
+  Theorem long_mol (named : bool) oc olc omc ov oi ok o :
+    given oc = true -> given olc = true -> given omc = true -> given ov = true -> given oi = true -> given ok = true ->
+    part_from_spec T X c0 ((if named then [(VStr "type", VStr "map_or_list_value")] else [])
+                           ++ mol_entries oc olc omc ov oi ok o) = mol_long_result oc olc omc ov oi ok o.
+  Proof.
+    intros Hc Hlc Hmc Hv Hi Hk. unfold part_from_spec, mol_long_result, mol_entries.
+    destruct named; cbn [app].
+    - rewrite dict_pop_hit. cbv beta iota. rewrite part_class_mol. cbn [bind].
+      change (String.eqb "MapOrListValue" "MapValue") with false. change (String.eqb "MapOrListValue" "ListValue") with false.
+      destruct oc as [sc|], olc as [slc|], omc as [smc|], ov as [sv|], oi as [si|], ok as [sk|], o as [l|];
+        cbn [opt_entry lab_of app long_cond long_kind]; fold dn; repeat step; reflexivity.
+    - destruct oc as [sc|], olc as [slc|], omc as [smc|], ov as [sv|], oi as [si|], ok as [sk|], o as [l|];
+        cbn [opt_entry lab_of app long_cond long_kind]; fold dn;
+        rewrite dict_pop_none by reflexivity; cbv beta iota; rewrite part_class_default; cbn [bind];
+        change (String.eqb "MapOrListValue" "MapValue") with false; change (String.eqb "MapOrListValue" "ListValue") with false;
+        repeat step; reflexivity.
+  Qed.
+End Long.
+
+(* ---- the shorthand theorems on the model's entry point ---- *)
+
+Notation cond0 := (cond0_from_spec T X spec_fuel).
+
+Lemma part_spec_parse_unfold d : part_spec_parse T X d = part_from_spec T X cond0 d.
+Proof. reflexivity. Qed.
+
+(* C10 (2), order: on a part spec made of a type, dotted shorthand entries (in ANY order, for EVERY
+   argument value, parsable or not) and possibly a label, the shorthands of a family and-combine
+   in the order of the mapping; map_value / list_value: `value.` entries before `key.` / `index.`
+   entries; map_or_list_value: three separate conditions. *)
+Theorem C10_shorthand_order : forall d o,
+  (shorts_of ["value."; "key."] d = true ->
+   part_spec_parse T X ((VStr "type", VStr "map_value") :: d ++ lab_of o) =
+   let* a1 := fold_short cond0 (filter (is_short "value.") d) dn in
+   let* a2 := fold_short cond0 (filter (is_short "key.") d) a1 in
+   finish (PtMap None None (Some (KCond (fst a2))) o)) /\
+  (shorts_of ["value."; "index."] d = true ->
+   part_spec_parse T X ((VStr "type", VStr "list_value") :: d ++ lab_of o) =
+   let* a1 := fold_short cond0 (filter (is_short "value.") d) dn in
+   let* a2 := fold_short cond0 (filter (is_short "index.") d) a1 in
+   finish (PtList None None (Some (KCond (fst a2))) o)) /\
+  (shorts_of short_prefixes d = true ->
+   part_spec_parse T X ((VStr "type", VStr "map_or_list_value") :: d ++ lab_of o) = mol_result cond0 d o /\
+   part_spec_parse T X (d ++ lab_of o) = mol_result cond0 d o).
+Proof.
+  intros d o. rewrite !part_spec_parse_unfold. repeat split.
+  - apply short_map.
+  - apply short_list.
+  - apply short_mol; assumption.
+  - apply short_mol; assumption.
+Qed.
+
+Lemma prefix_others pre d kind k : In (pre, (d, kind)) short_kinds -> String.prefix pre k = true ->
+  (String.prefix "value." k, String.prefix "key." k, String.prefix "index." k)
+  = (String.eqb pre "value.", String.eqb pre "key.", String.eqb pre "index.").
+Proof.
+  intros Hin Hp. cbn [In short_kinds] in Hin.
+  destruct Hin as [E|[E|[E|[]]]]; injection E as E1 E2 E3; subst pre d kind;
+    destruct (prefix_first _ _ _ Hp) as [r Hr]; rewrite Hr in *; rewrite Hp; reflexivity.
+Qed.
+
+Definition short1 (k : string) (v : pyval) : list (pyval * pyval) := [(VStr k, v)].
+Definition long1 (d k : string) (v : pyval) : list (pyval * pyval) := [(VStr d, VDict [(VStr k, v)])].
+
+Lemma fold_short1 c0 k v acc :
+  fold_short c0 [(VStr k, v)] acc = let* c := c0 (VDict [(VStr k, v)]) in and_on acc c.
+Proof. cbn [fold_short]. destruct (c0 _) as [c|e]; cbn [bind]; [|reflexivity]. destruct (and_on acc c); reflexivity. Qed.
+
+Ltac fin lv :=
+  unfold short1; cbn [filter is_short fst long_cond long_kind bind];
+  match goal with H1 : String.prefix "value." ?k = _, H2 : String.prefix "key." ?k = _, H3 : String.prefix "index." ?k = _ |- _ =>
+    rewrite ?H1, ?H2, ?H3 end;
+  rewrite ?fold_short1; cbn [fold_short bind];
+  match goal with Hkind : (forall c, cond0 ?s = Ok c -> _) |- _ =>
+    subst lv; cbn [long_kind];
+    destruct (cond0 s) as [c|e] eqn:Ec; cbn [bind]; [|reflexivity];
+    rewrite (Hkind c eq_refl); destruct (and_on dn c); reflexivity end.
+Ltac finm lv := unfold mol_result, mol_long_result; fin lv.
+
+(* C10 (2), shorthand = long form: one dotted entry `<datum>.<...>: v` is the long entry
+   `<datum>: {<datum>.<...>: v}`, for every key with that prefix (known callable or not) and every v *)
+Theorem C10_shorthand_long : forall pre d kind k v o,
+  In (pre, (d, kind)) short_kinds -> String.prefix pre k = true ->
+  (d <> "index" ->
+   part_spec_parse T X ((VStr "type", VStr "map_value") :: short1 k v ++ lab_of o) =
+   part_spec_parse T X ((VStr "type", VStr "map_value") :: long1 d k v ++ lab_of o)) /\
+  (d <> "key" ->
+   part_spec_parse T X ((VStr "type", VStr "list_value") :: short1 k v ++ lab_of o) =
+   part_spec_parse T X ((VStr "type", VStr "list_value") :: long1 d k v ++ lab_of o)) /\
+  part_spec_parse T X ((VStr "type", VStr "map_or_list_value") :: short1 k v ++ lab_of o) =
+  part_spec_parse T X ((VStr "type", VStr "map_or_list_value") :: long1 d k v ++ lab_of o) /\
+  part_spec_parse T X (short1 k v ++ lab_of o) = part_spec_parse T X (long1 d k v ++ lab_of o).
+Proof.
+  intros pre d kind k v o Hin Hp.
+  pose proof (prefix_others pre d kind k Hin Hp) as Ho.
+  assert (Hkind : forall c, cond0 (VDict [(VStr k, v)]) = Ok c -> is_like_strict kind (snd c) = true)
+    by (intros c; exact (cond0_short_kind 39 pre d kind k v c Hin Hp)).
+  rewrite !part_spec_parse_unfold.
+  set (lv := Some (VDict [(VStr k, v)])).
+  assert (Hg : given lv = true) by reflexivity.
+  assert (Hsh : forall pres, existsb (fun p => String.prefix p k) pres = true -> shorts_of pres (short1 k v) = true).
+  { intros pres H. unfold shorts_of, short1. cbn [forallb]. rewrite andb_true_r.
+    induction pres as [|p r IH]; cbn [existsb] in *; [discriminate|]. unfold is_short at 1. cbn [fst].
+    destruct (String.prefix p k); [reflexivity|]. cbn [orb] in *. apply IH. exact H. }
+  cbn [In short_kinds] in Hin.
+  destruct Hin as [E|[E|[E|[]]]]; injection E as E1 E2 E3; subst pre d kind; injection Ho as H1 H2 H3;
+    cbn [String.eqb Ascii.eqb Bool.eqb] in H1, H2, H3.
+  - (* value *)
+    repeat split; intros.
+    + rewrite (short_map cond0 (short1 k v) o) by (apply Hsh; cbn [existsb]; rewrite H1; reflexivity).
+      change (long1 "value" k v ++ lab_of o) with (opt_entry "condition" None ++ opt_entry "value" lv ++ opt_entry "key" None ++ lab_of o).
+      rewrite (long_map cond0 None lv None o eq_refl Hg eq_refl). fin lv.
+    + rewrite (short_list cond0 (short1 k v) o) by (apply Hsh; cbn [existsb]; rewrite H1; reflexivity).
+      change (long1 "value" k v ++ lab_of o) with (opt_entry "condition" None ++ opt_entry "value" lv ++ opt_entry "index" None ++ lab_of o).
+      rewrite (long_list cond0 None lv None o eq_refl Hg eq_refl). fin lv.
+    + destruct (short_mol cond0 (short1 k v) o) as [S1 _]; [apply Hsh; cbn [existsb short_prefixes]; rewrite H1; reflexivity|]. rewrite S1.
+      symmetry; etransitivity; [exact (long_mol cond0 true None None None lv None None o eq_refl eq_refl eq_refl Hg eq_refl eq_refl)|]. finm lv.
+    + destruct (short_mol cond0 (short1 k v) o) as [_ S2]; [apply Hsh; cbn [existsb short_prefixes]; rewrite H1; reflexivity|]. rewrite S2.
+      symmetry; etransitivity; [exact (long_mol cond0 false None None None lv None None o eq_refl eq_refl eq_refl Hg eq_refl eq_refl)|]. finm lv.
+  - (* key *)
+    repeat split; intros.
+    + rewrite (short_map cond0 (short1 k v) o) by (apply Hsh; cbn [existsb]; rewrite H1, H2; reflexivity).
+      change (long1 "key" k v ++ lab_of o) with (opt_entry "condition" None ++ opt_entry "value" None ++ opt_entry "key" lv ++ lab_of o).
+      rewrite (long_map cond0 None None lv o eq_refl eq_refl Hg). fin lv.
+    + congruence.
+    + destruct (short_mol cond0 (short1 k v) o) as [S1 _]; [apply Hsh; cbn [existsb short_prefixes]; rewrite H1, H2; reflexivity|]. rewrite S1.
+      symmetry; etransitivity; [exact (long_mol cond0 true None None None None None lv o eq_refl eq_refl eq_refl eq_refl eq_refl Hg)|]. finm lv.
+    + destruct (short_mol cond0 (short1 k v) o) as [_ S2]; [apply Hsh; cbn [existsb short_prefixes]; rewrite H1, H2; reflexivity|]. rewrite S2.
+      symmetry; etransitivity; [exact (long_mol cond0 false None None None None None lv o eq_refl eq_refl eq_refl eq_refl eq_refl Hg)|]. finm lv.
+  - (* index *)
+    repeat split; intros.
+    + congruence.
+    + rewrite (short_list cond0 (short1 k v) o) by (apply Hsh; cbn [existsb]; rewrite H1, H3; reflexivity).
+      change (long1 "index" k v ++ lab_of o) with (opt_entry "condition" None ++ opt_entry "value" None ++ opt_entry "index" lv ++ lab_of o).
+      rewrite (long_list cond0 None None lv o eq_refl eq_refl Hg). fin lv.
+    + destruct (short_mol cond0 (short1 k v) o) as [S1 _]; [apply Hsh; cbn [existsb short_prefixes]; rewrite H1, H2, H3; reflexivity|]. rewrite S1.
+      symmetry; etransitivity; [exact (long_mol cond0 true None None None None lv None o eq_refl eq_refl eq_refl eq_refl Hg eq_refl)|]. finm lv.
+    + destruct (short_mol cond0 (short1 k v) o) as [_ S2]; [apply Hsh; cbn [existsb short_prefixes]; rewrite H1, H2, H3; reflexivity|]. rewrite S2.
+      symmetry; etransitivity; [exact (long_mol cond0 false None None None None lv None o eq_refl eq_refl eq_refl eq_refl Hg eq_refl)|]. finm lv.
+Qed.
+
+
+(* ================================================================== *)
+(* 3. from_part_specs: element-wise, errors left to right               *)
+
+(* one element of the parts list: a mapping is a part spec, anything else is taken as a primitive
+   (whether it is an acceptable primitive -- str / float / int / bool -- is the DataPath constructor's
+   business: None, lists ... are a TypeError there) *)
+Definition part_of_spec (v : pyval) : res (pterm pyval) :=
+  match v with VDict d => part_spec_parse T X d | _ => Ok (PtPrim v) end.
+
+Lemma parts_from_specs_mapM l : parts_from_specs T X cond0 l = mapM part_of_spec l.
+Proof.
+  induction l as [|v r IH]; cbn [parts_from_specs mapM]; [reflexivity|].
+  destruct v; cbn [part_of_spec bind]; rewrite IH; reflexivity.
+Qed.
+
+Theorem C10_primitives_and_lists : forall l,
+  from_part_specs T X l =
+  let* ps := mapM part_of_spec l in
+  let t := {| pt_parts := ps; pt_mods := []; pt_src := None |} in
+  let* _ := mk_path T idlit t in Ok t.
+Proof. intros l. unfold from_part_specs, path_from_part_specs. rewrite parts_from_specs_mapM. reflexivity. Qed.
+
+(* element-wise success ... *)
+Lemma mapM_Forall2 {A B} (f : A -> res B) l ys : mapM f l = Ok ys <-> Forall2 (fun x y => f x = Ok y) l ys.
+Proof.
+  revert ys. induction l as [|x r IH]; intros ys; cbn [mapM].
+  - split; [intros [= <-]; constructor|intros H; inversion H; reflexivity].
+  - split.
+    + destruct (f x) as [y|e] eqn:E; cbn [bind]; [|discriminate].
+      destruct (mapM f r) as [ys'|e] eqn:E2; cbn [bind]; [|discriminate]. intros [= <-].
+      constructor; [exact E|apply IH; reflexivity].
+    + intros H. inversion H as [|x' y' r' ys' Hxy Hr]; subst. rewrite Hxy. cbn [bind].
+      apply IH in Hr. rewrite Hr. reflexivity.
+Qed.
+
+(* ... and the first failing element decides the error *)
+Lemma mapM_first_error {A B} (f : A -> res B) l1 x l2 ys e :
+  mapM f l1 = Ok ys -> f x = Err e -> mapM f (l1 ++ x :: l2) = Err e.
+Proof.
+  revert ys. induction l1 as [|a r IH]; intros ys H1 Hx; cbn [app mapM].
+  - rewrite Hx. reflexivity.
+  - cbn [mapM] in H1. destruct (f a) as [y|e1]; cbn [bind] in *; [|discriminate H1].
+    destruct (mapM f r) as [ys'|e1] eqn:E2; cbn [bind] in *; [|discriminate H1].
+    rewrite (IH ys' eq_refl Hx). reflexivity.
+Qed.
+
+Theorem C10_part_specs_elementwise : forall l,
+  (forall ps, Forall2 (fun v p => part_of_spec v = Ok p) l ps ->
+     from_part_specs T X l =
+     let t := {| pt_parts := ps; pt_mods := []; pt_src := None |} in let* _ := mk_path T idlit t in Ok t) /\
+  (forall l1 v l2 ps e, l = l1 ++ v :: l2 -> Forall2 (fun v p => part_of_spec v = Ok p) l1 ps ->
+     part_of_spec v = Err e -> from_part_specs T X l = Err e).
+Proof.
+  intros l. split.
+  - intros ps H. rewrite C10_primitives_and_lists. apply mapM_Forall2 in H. rewrite H. reflexivity.
+  - intros l1 v l2 ps e -> H He. rewrite C10_primitives_and_lists. apply mapM_Forall2 in H.
+    rewrite (mapM_first_error part_of_spec l1 v l2 ps e H He). reflexivity.
+Qed.
+
+(* which primitives the constructor accepts *)
+Example primitives_accepted :
+  map (fun v => match from_part_specs T X [v] with Ok _ => None | Err e => Some e end)
+      [VStr "a"; VInt 1%Z; VBool true; VFloat false 5%N (-1)%Z; VNone; VList []; VTuple []]
+  = [None; None; None; None; Some TypeError; Some TypeError; Some TypeError].
+Proof. vm_compute. reflexivity. Qed.
+
+(* ================================================================== *)
+(* 5. DataPath.from_str                                                 *)
+
+Theorem C10_from_str : forall fo s d,
+  path_from_str fo s d =
+  {| pt_parts := map (str_part fo) (match s with EmptyString => [] | _ => str_split d s end);
+     pt_mods := []; pt_src := None |}.
+Proof. reflexivity. Qed.
+
+(* a token that reads neither as an int nor as a float is the str primitive; an int token z is
+   MapOrListValue(key=Key.in_((tok, z)), index=z); a float token f is MapValue(key=Key.in_((tok, f))) *)
+Theorem C10_from_str_token : forall fo tok,
+  (int_of_str tok = None -> fo tok = None -> str_part fo tok = PtPrim (VStr tok)) /\
+  (forall z, int_of_str tok = Some z ->
+     str_part fo tok = PtMol (Some (KCond (DLeaf "Key" "in_" [VTuple [VStr tok; VInt z]] []))) (Some (KLit (VInt z))) None None None None None) /\
+  (forall f, int_of_str tok = None -> fo tok = Some f ->
+     str_part fo tok = PtMap (Some (KCond (DLeaf "Key" "in_" [VTuple [VStr tok; f]] []))) None None None).
+Proof.
+  intros fo tok. unfold str_part. repeat split.
+  - intros H1 H2. rewrite H1, H2. reflexivity.
+  - intros z H. rewrite H. reflexivity.
+  - intros f H1 H2. rewrite H1, H2. reflexivity.
+Qed.
+
+(* when no token reads as a number, from_str is the path of the str primitives *)
+Theorem C10_from_str_strings : forall fo s d,
+  forallb (fun tok => match int_of_str tok, fo tok with None, None => true | _, _ => false end)
+          (match s with EmptyString => [] | _ => str_split d s end) = true ->
+  path_from_str fo s d =
+  {| pt_parts := map (fun tok => PtPrim (VStr tok)) (match s with EmptyString => [] | _ => str_split d s end);
+     pt_mods := []; pt_src := None |}.
+Proof.
+  intros fo s d H. rewrite C10_from_str. f_equal.
+  induction (match s with EmptyString => [] | _ => str_split d s end) as [|tok r IH]; cbn [map forallb] in *; [reflexivity|].
+  apply andb_true_iff in H as [H1 H2]. rewrite (IH H2). f_equal. unfold str_part.
+  destruct (int_of_str tok); [discriminate H1|]. destruct (fo tok); [discriminate H1|reflexivity].
+Qed.
+
+(* The target "from_str = the path of PRIMITIVE parts, each token read as int, else float, else str" is
+   FALSE for numeric tokens (by design of from_str: a numeric token also matches the key spelt as a str):
+   DataPath.from_str("1") != DataPath(1); the former is not even concrete. *)
+Example C10_from_str_counterexample :
+  let fo := fun _ : string => None in
+  (let* a := mk_path T idlit (path_from_str fo "1" "/"%char) in
+   let* b := mk_path T idlit {| pt_parts := [PtPrim (VInt 1%Z)]; pt_mods := []; pt_src := None |} in
+   Ok (path_eqb a b, p_concrete a, p_concrete b)) = Ok (false, false, true).
+Proof. vm_compute. reflexivity. Qed.
+
+
+(* ================================================================== *)
+(* 1. long forms on the model's entry point (partial: relative to the parse of the component specs) *)
+
+(* The canonical long spelling {"type": .., "condition": C, "value": V, "key" | "index": K, "label": l}
+   (each component optional, `null` excluded) parses to the part whose condition is
+   ((C and V) and K): component specs are parsed by the stratum-0 condition parser in this order, the
+   `value` / `key` / `index` components must be value- / key- / index-like (ValueError otherwise).
+   For map_or_list_value (named or by default): condition & value, list_condition & index,
+   map_condition & key.
+   PARTIAL w.r.t. the target C10_part_long: the component parses are not resolved to the DSL terms
+   (the C09 leaf / tree theorems are proved for the stratum-1 parser cond1_from_spec only). *)
+Theorem C10_part_long_partial : forall oc ov ok o,
+  given oc = true -> given ov = true -> given ok = true ->
+  part_spec_parse T X ((VStr "type", VStr "map_value")
+     :: opt_entry "condition" oc ++ opt_entry "value" ov ++ opt_entry "key" ok ++ lab_of o) =
+  (let* c := long_cond cond0 oc in let* c1 := long_kind cond0 DValue c ov in let* c2 := long_kind cond0 DKey c1 ok in
+   finish (PtMap None None (Some (KCond (fst c2))) o)) /\
+  part_spec_parse T X ((VStr "type", VStr "list_value")
+     :: opt_entry "condition" oc ++ opt_entry "value" ov ++ opt_entry "index" ok ++ lab_of o) =
+  (let* c := long_cond cond0 oc in let* c1 := long_kind cond0 DValue c ov in let* c2 := long_kind cond0 DIndex c1 ok in
+   finish (PtList None None (Some (KCond (fst c2))) o)).
+Proof.
+  intros oc ov ok o H1 H2 H3. rewrite !part_spec_parse_unfold. split.
+  - exact (long_map cond0 oc ov ok o H1 H2 H3).
+  - exact (long_list cond0 oc ov ok o H1 H2 H3).
+Qed.
+
+Theorem C10_part_long_mol_partial : forall (named : bool) oc olc omc ov oi ok o,
+  given oc = true -> given olc = true -> given omc = true -> given ov = true -> given oi = true -> given ok = true ->
+  part_spec_parse T X ((if named then [(VStr "type", VStr "map_or_list_value")] else [])
+                       ++ mol_entries oc olc omc ov oi ok o) = mol_long_result cond0 oc olc omc ov oi ok o.
+Proof. intros. rewrite part_spec_parse_unfold. apply long_mol; assumption. Qed.
+
+(* what the constructors make of literal arguments: MapValue(key="a") is MapValue(key=Key.equal_to("a")),
+   and the spec spelling of both is the shorthand `key.equal_to: "a"` *)
+Example literal_argument_normalised :
+  mk_part T idlit (PtMap (Some (KLit (VStr "a"))) None None None)
+  = mk_part T idlit (PtMap (Some (KCond (DLeaf "Key" "equal_to" [VStr "a"] []))) None None None) /\
+  (let* t := part_spec_parse T X [(VStr "type", VStr "map_value"); (VStr "key.equal_to", VStr "a")] in mk_part T idlit t)
+  = mk_part T idlit (PtMap (Some (KLit (VStr "a"))) None None None).
+Proof. vm_compute. split; reflexivity. Qed.
+
+(* key and value given: equal to the API-built part (== is commutative at the top of a combination) *)
+Example part_long_two_components :
+  let spec := [(VStr "type", VStr "map_value");
+               (VStr "value", VDict [(VStr "value.length.less_than", VInt 3%Z)]);
+               (VStr "key", VDict [(VStr "key.in", VList [VStr "a"; VStr "b"])]); (VStr "label", VStr "L")] in
+  let api := PtMap (Some (KCond (DLeaf "Key" "in_" [VList [VStr "a"; VStr "b"]] [])))
+                   (Some (KCond (DLeaf "ValueLength" "less_than" [VInt 3%Z] []))) None (Some (VStr "L")) in
+  (let* t := part_spec_parse T X spec in let* (p, _) := mk_part T idlit t in let* (q, _) := mk_part T idlit api in
+   Ok (part_eqb p q)) = Ok true.
+Proof. vm_compute. reflexivity. Qed.
+
+(* The target C10_part_long is FALSE when key, value AND condition are all given: the API nests
+   (condition & key) & value, from_spec nests (condition & value) & key, and == on combinations only
+   commutes at the top.  Python: MapValue(key=Key.equal_to("a"), value=Value.equal_to(1), condition=Value.truthy())
+   != ContainerValue.from_spec({"type": "map_value", "condition": {"value.truthy": None},
+                                "value": {"value.equal_to": 1}, "key": {"key.equal_to": "a"}})
+   (the two parts select the same items). *)
+Example C10_part_long_counterexample :
+  let spec := [(VStr "type", VStr "map_value");
+               (VStr "condition", VDict [(VStr "value.truthy", VNone)]);
+               (VStr "value", VDict [(VStr "value.equal_to", VInt 1%Z)]);
+               (VStr "key", VDict [(VStr "key.equal_to", VStr "a")])] in
+  let api := PtMap (Some (KCond (DLeaf "Key" "equal_to" [VStr "a"] [])))
+                   (Some (KCond (DLeaf "Value" "equal_to" [VInt 1%Z] [])))
+                   (Some (KCond (DLeaf "Value" "truthy" [] []))) None in
+  (let* t := part_spec_parse T X spec in let* (p, _) := mk_part T idlit t in let* (q, _) := mk_part T idlit api in
+   Ok (part_eqb p q)) = Ok false.
+Proof. vm_compute. reflexivity. Qed.
+
+(* shorthand examples: several shorthands and-combine; a shorthand is its long form *)
+Example shorthand_examples :
+  part_spec_parse T X [(VStr "type", VStr "map_value"); (VStr "key.equal_to", VStr "a"); (VStr "value.length.less_than", VInt 3%Z)]
+  = Ok (PtMap None None (Some (KCond (DBin BoAnd (DBin BoAnd DNull (DLeaf "ValueLength" "less_than" [VInt 3%Z] []))
+                                          (DLeaf "Key" "equal_to" [VStr "a"] [])))) None) /\
+  part_spec_parse T X [(VStr "index.in", VList [VInt 0%Z; VInt 1%Z])]
+  = part_spec_parse T X [(VStr "index", VDict [(VStr "index.in", VList [VInt 0%Z; VInt 1%Z])])].
+Proof. vm_compute. split; reflexivity. Qed.
+
+Example shorts_fragment_inhabited :
+  shorts_of ["value."; "key."] [(VStr "key.equal_to", VStr "a"); (VStr "value.length.less_than", VInt 3%Z); (VStr "key.in", VList [])] = true.
+Proof. vm_compute. reflexivity. Qed.
+
+Print Assumptions C10_suffix_order.
+Print Assumptions C10_suffix_single.
+Print Assumptions C10_shorthand_order.
+Print Assumptions C10_shorthand_long.
+Print Assumptions C10_part_long_partial.
+Print Assumptions C10_part_long_mol_partial.
+Print Assumptions C10_primitives_and_lists.
+Print Assumptions C10_part_specs_elementwise.
+Print Assumptions C10_from_str.
+Print Assumptions C10_from_str_token.
+Print Assumptions C10_from_str_strings.
